@@ -7,22 +7,112 @@ ROOT = os.path.dirname(os.path.dirname(os.path.abspath(__file__)))
 TECH = ("bounded model checking of the compiled Rust code: Kani 0.68 -> CBMC 6.11 -> SAT (cadical); symbolic inputs "
         "via kani::any(), unwinding assertions on, counterexamples replayed natively with cargo kani playback")
 
+TECH2 = TECH + "; for C13 additionally path-forking symbolic execution of rustc's MIR with z3 (mirsym)"
+
 CLAIMED = {
     # id: (level text, level_note, design_ref)
+    "C01": (
+        "Kernel-level bounded model checking of the code the property's anchors name: every lexer (lex_url, lex_hostname_token, "
+        "lex_email_address, lex_hex_number, lex_long_decade, lex_regexish, lex_plural_digit, lex_punctuation, lex_spaces/tabs/newlines, "
+        "lex_word, lex_catch) returns normally on every text up to the stated length over all Unicode scalar values and consumes "
+        "1..=len chars (the premise of PlainEnglish::parse's loop); every pattern combinator (Sequence, Invert, Repeating, Either, All, "
+        "ConsumesRemaining, NaivePatternGroup) and leaf pattern obeys matches() <= tokens.len() for arbitrary contract-obeying children "
+        "(assume-guarantee, so any nesting depth) on 0..=3 tokens; run_on_chunk neither panics nor loops; jsdoc::parse_inline_tag "
+        "terminates and stays in bounds; without_initiators cannot reach Span::new's panic; edit_distance cannot overflow. Panics, "
+        "overflow, out-of-bounds and unwinding assertions are all checked by the solver; hangs are confirmed natively.",
+        "Kernels only. Outside the claim: Markdown/HTML/Typst/Literate-Haskell/tree-sitter front-ends, Document::parse and its "
+        "condensing passes (Kani ICE on thread_local / memory), dictionary-dependent rules, lex_number's f64 parsing, "
+        "mark_inline_tags and PatternMap (Kani limitations, DESIGN.md). Unicode table look-ups are replaced by nondeterministic stubs "
+        "(over-approximation). Trusted: Kani, CBMC, cadical, harness specs.",
+        "DESIGN.md section 4, C01"),
+    "C02": (
+        "Kernel-level bounded model checking of lexical shape: for every text within the bound, lex_spaces/tabs/newlines yield "
+        "Space(k)/Space(2k)/Newline(k) over exactly the maximal run; lex_word and lex_plural_digit tokens contain no whitespace or "
+        "punctuation; lex_punctuation agrees with an independent table for every Unicode scalar and quotes start unpaired; "
+        "lex_hex_number's value equals the value its text denotes; lex_long_decade matches exactly [12]dd0s not followed by a letter/"
+        "digit; URL/hostname tokens contain no blanks; Document::match_quotes pairs quotes mutually, in range and in order for every "
+        "quote/non-quote sequence of up to 4 (5) tokens; PlainEnglish::parse tiles every ASCII text of <= 2 chars (thorough).",
+        "Covers lexing and quote pairing only. Outside the claim: the condensing passes of Document::parse (token surgery; memory), "
+        "Markdown/HTML/Typst/comment front-ends, Mask::parse, CollapseIdentifiers, IsolateEnglish, decimal number values. The "
+        "property's own example ('See e.g.' loses its final period) is therefore not detectable here.",
+        "DESIGN.md section 4, C02"),
+    "C03": (
+        "The edit primitive is decided exhaustively within bounds: Suggestion::apply equals a reference splice for Remove (texts <= 4 "
+        "(5) chars, every span), ReplaceWith and InsertAfter (texts <= 3 (4) chars, replacement <= 2 (3) chars, every span, all "
+        "characters symbolic), including the equal-length in-place path, empty spans and spans touching either end; "
+        "replace_with_match_case keeps length and letters; the Span algebra used to rebase cached lints (pull_by/push_by/pulled_by/"
+        "pushed_by/with_offset, overlaps_with, contains, with_len, try_get_content) is decided over full-width usize; "
+        "TokenStringExt::span is the tight in-bounds hull of its tokens.",
+        "Edit primitive and span plumbing only. 'Each reported lint's span lies in the text' is NOT decided for the ~290 rules nor "
+        "for LintGroup::lint (hash-keyed LRU cache, RandomState: not encodable) - a cache-rebasing defect inside LintGroup::lint is "
+        "outside what this check can see.",
+        "DESIGN.md section 4, C03"),
+    "C08": (
+        "The real harper-ls/src/pos_conv.rs (compiled into the harness crate) is decided for every text of <= 3 (4-5) chars over "
+        "{LF, CR, a, U+1F600, TAB, e-acute} and every span: span_to_range equals an independent LSP reference (line = LFs before, "
+        "character = UTF-16 units since the last LF); range_to_span(span_to_range(s)) == s without panic; a code-action request "
+        "anywhere inside a diagnostic's range selects that lint (the generate_code_actions filter composed from the real functions).",
+        "Outside the claim: lint_to_code_actions (Url, HashMap, serde_json: Kani ICE) so TextEdit.new_text per suggestion kind and the "
+        "lint filtering/ordering inside DocumentState::generate_code_actions are not solver-checked; the server loop.",
+        "DESIGN.md section 4, C08"),
+    "C12": (
+        "Structural kernel only: for every sequence of <= 2 (3) tokens over 10 kinds, iter_chunks / iter_sentences / iter_paragraphs "
+        "yield non-empty, contiguous, in-order pieces that cover the token list exactly, each piece but the last ending in its "
+        "terminator and containing no other terminator. With run_on_chunk (C01) this shows pattern rules are handed one clause at a "
+        "time; the cache rebase identity is under C03.",
+        "A narrow slice of C12: every rule's own index arithmetic, whole-document linters, the condensing passes' commutation with "
+        "concatenation and the clause cache of LintGroup::lint are outside (not encodable).",
+        "DESIGN.md section 4, C12"),
+    "C13": (
+        "Two engines on the real code. Kani/CBMC: remove_overlaps on Vec<Lint> for 0..=2 lints with arbitrary spans, and "
+        "VecExt::remove_indices on Vec<Token> for <= 3 (4) elements and any increasing index list. mirsym: rustc's MIR of "
+        "remove_overlaps, its sort-key closure, VecExt::remove_indices and its retain closure is symbolically executed for 0..=4 (5) "
+        "lints with fully symbolic 64-bit spans; z3 decides every branch and, on every path, that the output is an unaltered "
+        "sub-list, pairwise conflict-free, and that each dropped lint starts inside a kept one. Counterexamples are replayed against "
+        "the native build.",
+        "mirsym trusts hand-written contracts for the std calls (stable sort_by_key, Vec::retain, VecDeque, slice iterators), listed "
+        "in evidence; code using a std call without a model is reported inconclusive, never passed. Bounds: <= 5 lints.",
+        "DESIGN.md section 4, C13"),
+    "C15": (
+        "The distance routine only: edit_distance / edit_distance_min_alloc equals the recursive Levenshtein definition for all pairs "
+        "of strings up to 3x3 (4x4) chars over all Unicode scalars, is symmetric, and does not depend on the previous contents of its "
+        "scratch buffers.",
+        "Outside the claim: FST / mutable / merged dictionaries and fuzzy_match (hash maps, fst automata, thread-local builders: not "
+        "encodable), i.e. back-end agreement, completeness and ordering of fuzzy search are NOT checked.",
+        "DESIGN.md section 4, C15"),
     "C17": (
-        "For every integer n < 2^24 (quick) / n < 2^53 (thorough) the SAT solver shows "
-        "NumberSuffix::correct_suffix_for(n as f64) equals the English ordinal rule; from_chars/to_chars are decided for "
-        "every pair of Unicode scalar values; CorrectNumberSuffix::lint on a one-token document (symbolic number, suffix, "
-        "offset, width) yields exactly one lint on the last two characters with the correct replacement iff the suffix is "
-        "wrong. All values inside the bounds are covered by the solver, which is what a statement about infinitely many "
-        "numbers needs; nothing outside the bounds is claimed.",
-        "Outside the claim: decimal text -> f64 (str::parse::<f64>, not encodable here) and condense_number_suffixes' "
-        "token surgery on real parser output (the merge is decided on small token arrays under C02). Trusted: Kani/CBMC/"
-        "cadical, Kani's f64 model, the harness-side reference rule.",
+        "For every integer n < 2^53 (one SAT query over a 53-bit variable) NumberSuffix::correct_suffix_for(n as f64) equals the "
+        "English ordinal rule; from_chars/to_chars are decided for every pair of Unicode scalar values; CorrectNumberSuffix::lint on a "
+        "one-token document (symbolic number < 2^53, suffix, offset, width) yields exactly one lint on the last two characters with the "
+        "correct replacement iff the suffix is wrong; lex_long_decade never swallows the 's' of an 'st' suffix.",
+        "Outside the claim: decimal text -> f64 (str::parse::<f64>) and condense_number_suffixes' token surgery on real parser "
+        "output. Trusted: Kani's f64 model, the harness-side reference rule.",
         "DESIGN.md section 4, C17"),
 }
 
-NOT_APPLICABLE = {}
+NOT_APPLICABLE = {
+    "C04": "which characters are prose is decided by tree-sitter (C, FFI), pulldown-cmark and typst-syntax; every harper-side offset "
+           "kernel probed (byte_spans_to_char_spans, LiterateHaskellMasker, GitCommitParser/Unit with a stub parser, "
+           "Mask::merge_whitespace_sep) ran out of memory or time under CBMC; not encodable within reach",
+    "C05": "the mechanism is an LRU keyed by foldhash of clause and configuration plus thread-locals and lazy statics; "
+           "LintGroup::empty() already reaches clock_gettime (RandomState); no solver-encodable kernel remains",
+    "C06": "quantifies over the 130k-word curated dictionary (affix expansion, hashbrown, FST); SpellCheck::new builds a 10,000-entry "
+           "LRU with RandomState before any decision",
+    "C07": "async tokio file I/O, crash points and server commands; no file-system/async model in the engine and a hand model would "
+           "not be the real code",
+    "C09": "concurrent async handlers over tokio Mutex/RwLock and a client round trip; Kani does not handle concurrency",
+    "C10": "absence of side effects and a dependency-graph property; there is no assertion over inputs for a solver to decide",
+    "C11": "LintGroupConfig is a BTreeMap<String,Option<bool>> (one-key merge_from ran out of memory), the gate lives in "
+           "LintGroup::lint (RandomState/LRU), the JSON round trip goes through serde_json",
+    "C14": "identity is a SipHash of tokens, message and suggestions in a HashSet<u64>; needs Document::new (Kani compiler crash on "
+           "thread_local), hashing and serde",
+    "C16": "whole-program glue over the curated dictionary, serde and wasm-bindgen; its solver-amenable ingredients are decided "
+           "under C03 and C13",
+    "C18": "every word goes through a lazy_static HashSet<Vec<char>> lookup (RandomState hashing of symbolic chars) and heap copies; "
+           "a 1-token probe gave no verdict in 5 min / 5 GB",
+    "C19": "serialising a Record crashes the Kani compiler and the crux (JSON escaping never emits a raw line break) lives in "
+           "serde_json, whose one-character round trip gave no verdict in 15 min",
+}
 
 
 def main():
@@ -42,7 +132,7 @@ def main():
                 "engine": "kani-cbmc",
                 "level_claimed": {"category": "model_checking", "text": text, "design_ref": ref},
                 "level_note": note,
-                "technique": TECH,
+                "technique": TECH2 if pid == "C13" else TECH,
             })
         elif pid not in na:
             na[pid] = "check not built yet (work in progress; see DESIGN.md)"
@@ -64,6 +154,12 @@ def main():
             "kind_free_text": "Kani 0.68.0 proof harnesses in /verif/harness (path dependencies on /repo), decided by "
                               "CBMC 6.11.0 + cadical; driver /verif/check runs them in parallel under memory/time caps, "
                               "classifies results, replays counterexamples natively and writes evidence",
+        }, {
+            "name": "mirsym", "path": "/verif/mirsym",
+            "serves_properties": ["C13"],
+            "kind_free_text": "path-forking symbolic executor for rustc's textual MIR (dumped from /repo on every run with the "
+                              "nightly toolchain), z3 4.x via python3-vt decides branch feasibility and post-conditions; std calls "
+                              "are dispatched to hand-written contracts (models.py)",
         }],
         "checks": checks,
         "not_applicable": [{"property_id": k, "reason": v} for k, v in na.items() if k not in CLAIMED],
